@@ -1,3 +1,4 @@
+import Pyunicorn.Model.Similarity
 /-
 Model of `src/pyunicorn/eventseries/event_series.py`:
 
@@ -479,5 +480,141 @@ def makeEventMatrix (data : Mat Rat) (nvar : Nat) (ms : List TMethod) (vs : List
   pure (data.map fun row => (List.range nvar).map fun i =>
     let p := thr.getD i (0, .above)
     mark p.1 p.2 (row.getD i 0))
+
+/-! ## round 3: the count statements as *slice specifications* (structural translator)
+
+Every count of `event_coincidence_analysis` / `_eca_coincidence_rate` has the shape
+`np.count_nonzero(np.any(W[r0 : dst.shape[0] - r1, c0 : dst.shape[1] - c1], axis=k))` with
+`W[i,j] = w(e1[i] - e2[j])`.  `translate/gen_C16.py` reads the slice bounds and the axis of
+each statement from the source into a `CountSpec` (`Generated/StructC16.lean`); `evalCount`
+gives it its NumPy meaning. -/
+
+/-- a slice bound: nothing, or one of the four boundary counts -/
+inductive Bnd | zero | n11 | n12 | n21 | n22
+deriving Repr, DecidableEq
+
+structure CountSpec where
+  rowLo : Bnd
+  rowHi : Bnd   -- upper bound `dst.shape[0] - rowHi`
+  colLo : Bnd
+  colHi : Bnd   -- upper bound `dst.shape[1] - colHi`
+  axis : Nat    -- axis of `np.any`
+deriving Repr, DecidableEq
+
+/-- `l[lo : len(l) - hiSub]` -/
+def sliceL {α} (lo hiSub : Nat) (l : List α) : List α := (l.take (l.length - hiSub)).drop lo
+
+def bndVal (n11 n12 n21 n22 : Nat) : Bnd → Nat
+  | .zero => 0 | .n11 => n11 | .n12 => n12 | .n21 => n21 | .n22 => n22
+
+/-- the count statement `s` on `dst[i,j] = e1[i] - e2[j]` with window test `w` -/
+def evalCount (s : CountSpec) (w : Rat → Bool) (e1 e2 : List Rat) (n : Bnd → Nat) : Nat :=
+  let rows := sliceL (n s.rowLo) (n s.rowHi) e1
+  let cols := sliceL (n s.colLo) (n s.colHi) e2
+  if s.axis = 1 then rows.countP fun a => cols.any fun b => w (a - b)
+  else cols.countP fun b => rows.any fun a => w (a - b)
+
+/-- `len(e[e <= e[0] + …])` / `len(e[e >= e[-1] - …])` with the comparison as a function of
+`(t, reference event)` (the reference is the first / last event) -/
+def countRef (cmp : Rat → Rat → Bool) (ref : Option Rat) (e : List Rat) : Nat :=
+  match ref with
+  | some h => e.countP fun t => cmp t h
+  | none => 0
+
+/-! ## round 3: the symmetrisation helpers as expressions, and who owns the arrays -/
+
+/-- the expression a `_symmetrization_*` helper returns, over `(matrix, matrix.T)` -/
+inductive SymExpr | arg | add | sub | mean | max | min
+deriving Repr, DecidableEq
+
+def evalSym : SymExpr → Rat → Rat → Rat
+  | .arg, a, _ => a
+  | .add, a, b => a + b
+  | .sub, a, b => a - b
+  | .mean, a, b => (a + b) / 2
+  | .max, a, b => max a b
+  | .min, a, b => min a b
+
+/-- what the structural translator records about one helper -/
+structure SymHelper where
+  expr : SymExpr
+  fresh : Bool       -- the result is a newly allocated array (`false`: the argument itself)
+  writesArg : Bool   -- some statement / `out=` keyword stores into the argument
+deriving Repr, DecidableEq
+
+/-- the helper table as the model has it (proved equal to the table read from the source:
+`gen_symm_table`): the table's expression, only `directed` returns its argument, nothing
+stores into the argument -/
+def stdHelper : Symm → SymHelper
+  | .directed => ⟨.arg, false, false⟩
+  | .symmetric => ⟨.add, true, false⟩
+  | .antisym => ⟨.sub, true, false⟩
+  | .mean => ⟨.mean, true, false⟩
+  | .max => ⟨.max, true, false⟩
+  | .min => ⟨.min, true, false⟩
+
+/-- an `EventSeries` object as far as `event_series_analysis(method='ES')` is concerned:
+arrays live in a heap and are handed around *by reference*; `cache` is the address of the
+array memoised by `@Cached.method()` on `_ndim_event_synchronization` -/
+structure ObjState (α : Type) where
+  heap : List α
+  cache : Option Nat
+
+/-- one call `event_series_analysis(method='ES', symmetrization=s)`: fetch (or compute and
+memoise) the directed matrix, hand *that array* to the helper; a helper may return its
+argument, allocate, and (if `writesArg`) store its result into its argument.
+Returns the new state and the address of the returned array. -/
+def analysisStep {α} (compute : α) (apply : Symm → α → α) (hp : Symm → SymHelper)
+    (st : ObjState α) (s : Symm) : ObjState α × Nat :=
+  let heap1 := match st.cache with
+    | some _ => st.heap
+    | none => st.heap ++ [compute]
+  let a := match st.cache with
+    | some a => a
+    | none => st.heap.length
+  match heap1[a]? with
+  | none => (⟨heap1, some a⟩, a)          -- unreachable for well-formed states
+  | some m =>
+    let r := apply s m
+    let heap2 := if (hp s).writesArg then heap1.set a r else heap1
+    if (hp s).fresh then (⟨heap2 ++ [r], some a⟩, heap2.length) else (⟨heap2, some a⟩, a)
+
+/-- a history of calls on one object; the addresses of the arrays returned, in order -/
+def runHistory {α} (compute : α) (apply : Symm → α → α) (hp : Symm → SymHelper) :
+    ObjState α → List Symm → ObjState α × List Nat
+  | st, [] => (st, [])
+  | st, s :: t =>
+    let r := analysisStep compute apply hp st s
+    let r2 := runHistory compute apply hp r.1 t
+    (r2.1, r.2 :: r2.2)
+
+/-- what `symmetrization_options[s]` returns for the ES matrix `M` (the matrix itself for
+`directed`) -/
+def esApply (n : Nat) (s : Symm) (M : Mat ESEntry) : Mat ESEntry :=
+  if s = Symm.directed then M else symmetrize n none (esSymmOp s) M
+
+/-! ## round 3: the float32 quotient `np.float32(count) / denominator` -/
+
+/-- round-to-nearest-even to a 24-bit significand (IEEE binary32; every rate is `0` or
+`≥ 2⁻²⁴`, far inside the normal range) -/
+def rn24 (x : Rat) : Rat :=
+  if x ≤ 0 then 0 else
+    let ulp := Similarity.twoPow (Similarity.binExp x - 23)
+    (Similarity.roundHalfEven (x / ulp) : Rat) * ulp
+
+/-- the value the code returns: the float32 nearest to the exact quotient -/
+def rateF32 : Rate → Rate
+  | .nan => .nan
+  | .val r => .val (rn24 r)
+
+def EcaOut.f32 (o : EcaOut) : EcaOut :=
+  ⟨rateF32 o.prec12, rateF32 o.trig12, rateF32 o.prec21, rateF32 o.trig21⟩
+
+/-- `event_series_analysis(method='ECA')` in floating point: float32 rates stored in the
+float64 matrix, then symmetrised (`mean` of two float32 values is exact in float64) -/
+def ecaAnalysisF32 (w : Window) (ts : List Rat) (E : Mat Bool) (n : Nat) (taumax lag : Rat)
+    (s : Symm) : Option (Mat (Option Rat)) :=
+  (ecaMatrix w ts E n taumax lag).map fun M =>
+    symmetrize n none (symmOpN s) (M.map fun row => row.map fun e => e.map rn24)
 
 end Pyunicorn.Events
